@@ -31,6 +31,7 @@ def main():
         if getattr(mod, 'DRIVER', None):
             drivers.append(mod.DRIVER)
         drivers.extend(getattr(mod, 'LEAN_TARGETS', []))
+        drivers.extend(getattr(mod, 'EXTRA_TARGETS', []))
         checks.append({
             'property_id': pid,
             'quick_cmd': f'{PY} harness/check.py {pid} --tier quick',
